@@ -318,7 +318,9 @@ class World:
         import proxy.core.connection.server as SRV
         import proxy.http.handler as H
         import proxy.http.proxy.server as PS
-        self.flags = FlagParser.initialize(self.args, threadless=self.threadless, **self.opts)
+        # threaded mode is only honoured via the --threaded argument (is_threadless())
+        args = self.args + ([] if self.threadless or '--threaded' in self.args else ['--threaded'])
+        self.flags = FlagParser.initialize(args, threadless=self.threadless, **self.opts)
         self.loop = asyncio.new_event_loop()
         self._patch(SRV, 'new_socket_connection', self._connect)
         for mod in (H, PS):
